@@ -317,7 +317,9 @@ class CallMixin:
             st.assume(self._b(c.hyps(ctx)))
         out = []
         # frame: everything in `modifies` is havocked first, on normal AND exceptional outcomes
-        for p in c.modifies:
+        if getattr(c, "frame", None) is not None:
+            c.frame(self, st, amap)
+        for p in (c.modifies if getattr(c, "frame", None) is None else ()):
             v = amap.get(p)
             if isinstance(v, VRef):
                 o = st.obj(v.ref)
